@@ -260,6 +260,29 @@ class C15(Prop):
         pairs = [(FIXED_A, FIXED_B, 5, 5), (regex, props, 4, 5)]
         if tier == "thorough":
             pairs += [(FIXED_B, FIXED_A, 5, 5), (FIXED_A, dict(FIXED_A, ctor={"normalize_names": False}), 5, 5), (regex, FIXED_B, 4, 5)]
+        # mode-pair sweep: every dialect-specific corpus script, run with its own test configuration, after a parser that ran a
+        # script of another dialect in that dialect's mode (per-dialect classes / caches must not bleed into each other)
+        corpus = universe.corpus()
+
+        def as_obj(i):
+            it = corpus[i]
+            ctor = {k: v for k, v in it["ctor"].items() if k in ("normalize_names", "silent")}
+            run = {k: v for k, v in it["run"].items() if k in ("output_mode", "group_by_type")}
+            return {"src": {"t": "corpus", "item": i}, "ctor": ctor, "run": run}
+
+        reps = {}
+        for i, it in enumerate(corpus):
+            m = it["run"].get("output_mode")
+            if m and m != "sql":
+                reps.setdefault(m, i)
+        for i, it in enumerate(corpus):
+            m = it["run"].get("output_mode")
+            if not m or m == "sql":
+                continue
+            for n, (m2, j) in enumerate(sorted(reps.items())):
+                if m2 == m or (tier == "quick" and (i + n) % 3):
+                    continue
+                yield {"kind": "ops", "objs": [as_obj(j), as_obj(i)], "order": [0, 0, 1, 1]}
         for a, b, na, nb in pairs:
             for combo in itertools.combinations(range(na + nb), na):  # C(10, 5) = 252 / C(9, 4) = 126 interleavings
                 order = [0 if i in combo else 1 for i in range(na + nb)]
